@@ -44,6 +44,11 @@ def cases():
         C.append((f"state-read[{m}]", f"x: uint256\n\n@external\n{deco(m)}def f() -> uint256:\n    return self.x\n", RANK[m] >= 1))
         C.append((f"transient-write[{m}]", f"x: transient(uint256)\n\n@external\n{deco(m)}def f():\n    self.x = 1\n", RANK[m] >= 2))
         C.append((f"dynarray-append[{m}]", f"x: DynArray[uint256, 3]\n\n@external\n{deco(m)}def f():\n    self.x.append(1)\n", RANK[m] >= 2))
+        C.append((f"transient-augassign[{m}]", f"x: transient(uint256)\n\n@external\n{deco(m)}def f():\n    self.x += 1\n", RANK[m] >= 2))
+        C.append((f"transient-dynarray-append[{m}]", f"x: transient(DynArray[uint256, 3])\n\n@external\n{deco(m)}def f():\n    self.x.append(1)\n", RANK[m] >= 2))
+        C.append((f"transient-dynarray-pop[{m}]", f"x: transient(DynArray[uint256, 3])\n\n@external\n{deco(m)}def f() -> uint256:\n    return self.x.pop()\n", RANK[m] >= 2))
+        C.append((f"transient-write-via-internal[{m}]", f"x: transient(uint256)\n\n@internal\n{deco(m if m != 'payable' else 'nonpayable')}def g():\n    self.x = 1\n\n@external\n{deco(m)}def f():\n    self.g()\n", RANK[m] >= 2))
+        C.append((f"transient-read[{m}]", f"x: transient(uint256)\n\n@external\n{deco(m)}def f() -> uint256:\n    return self.x\n", RANK[m] >= 1))
         C.append((f"log[{m}]", f"event E:\n    a: uint256\n\n@external\n{deco(m)}def f():\n    log E(a=1)\n", RANK[m] >= 2))
         C.append((f"raw_call[{m}]", f"@external\n{deco(m)}def f(t: address):\n    raw_call(t, b'')\n", RANK[m] >= 2))
         C.append((f"raw_call-static[{m}]", f"@external\n{deco(m)}def f(t: address) -> Bytes[32]:\n    return raw_call(t, b'', max_outsize=32, is_static_call=True)\n", RANK[m] >= 1))
@@ -121,3 +126,16 @@ def replay_rule(o):
 
 
 REPLAY = {"rule": replay_rule}
+
+
+def loop_family():
+    """run-time side of "every loop runs at most its compile-time bound": range(n, bound=), range(a, b, bound=) with unsigned and
+    signed counters - decided by the reference semantics (contracts/source_sem.py)"""
+    T = {}
+    T["range.bound.uint256"] = "@external\ndef f(n: uint256) -> uint256:\n    s: uint256 = 0\n    for i: uint256 in range(n, bound=3):\n        s = (s << 8) ^ i\n    return s\n"
+    T["range.ab.bound.uint256"] = "@external\ndef f(a: uint256, b: uint256) -> uint256:\n    s: uint256 = 0\n    for i: uint256 in range(a, b, bound=3):\n        s = unsafe_add(unsafe_mul(s, 3), 1) ^ i\n    return s\n"
+    T["range.ab.bound.int256"] = "@external\ndef f(a: int256, b: int256) -> uint256:\n    s: uint256 = 0\n    for i: int256 in range(a, b, bound=3):\n        s = unsafe_add(unsafe_mul(s, 3), 1)\n    return s\n"
+    T["range.ab.bound.int128"] = "@external\ndef f(a: int128, b: int128) -> uint256:\n    s: uint256 = 0\n    for i: int128 in range(a, b, bound=2):\n        s = (s << 64) ^ 1\n    return s\n"
+    T["range.ab.bound.uint8"] = "@external\ndef f(a: uint8, b: uint8) -> uint256:\n    s: uint256 = 0\n    for i: uint8 in range(a, b, bound=2):\n        s = (s << 8) ^ convert(i, uint256)\n    return s\n"
+    T["list.iteration.bound"] = "@external\ndef f(x: DynArray[uint8, 3]) -> uint256:\n    s: uint256 = 0\n    for v: uint8 in x:\n        s = (s << 8) ^ convert(v, uint256)\n    return s\n"
+    return T
